@@ -20,18 +20,18 @@ const (
 	RecHS    = 22
 	RecApp   = 23
 
-	HSClientHello  = 1
-	HSServerHello  = 2
-	HSHelloVerify  = 3
-	HSCertificate  = 11
-	HSServerKeyX   = 12
-	HSCertRequest  = 13
-	HSServerDone   = 14
-	HSCertVerify   = 15
-	HSClientKeyX   = 16
-	HSFinished     = 20
-	VersionTLCP    = 0x0101
-	curveSM2       = 41
+	HSClientHello = 1
+	HSServerHello = 2
+	HSHelloVerify = 3
+	HSCertificate = 11
+	HSServerKeyX  = 12
+	HSCertRequest = 13
+	HSServerDone  = 14
+	HSCertVerify  = 15
+	HSClientKeyX  = 16
+	HSFinished    = 20
+	VersionTLCP   = 0x0101
+	curveSM2      = 41
 )
 
 // Link is the transport between the puppet and the endpoint under test.
@@ -100,11 +100,13 @@ type Peer struct {
 	Undecryptable  int
 	Kinds          []string // every record / handshake message received, in order
 
-	eph       *ecdh.PrivateKey // own ephemeral key (ECDHE)
-	peerTmp   *ecdh.PublicKey
-	FixedPre  []byte // force this pre-master secret (client role, ECC)
+	eph         *ecdh.PrivateKey // own ephemeral key (ECDHE)
+	peerTmp     *ecdh.PublicKey
+	FixedPre    []byte // force this pre-master secret (client role, ECC)
 	ForceMaster []byte // resumption: master secret of the offered / echoed session
-	NoAutoKeys bool
+	NoAutoKeys  bool
+	seenSeq     map[uint16]bool // DTLS: message_seq values already digested (retransmitted flights are ignored)
+	lastSent    []byte
 }
 
 func (p *Peer) logKind(k string) { p.Kinds = append(p.Kinds, k) }
@@ -139,7 +141,18 @@ func (p *Peer) record(typ byte, frag []byte) []byte {
 }
 
 // SendRecord sends one record carrying frag.
-func (p *Peer) SendRecord(typ byte, frag []byte) error { return p.L.Send(p.record(typ, frag)) }
+func (p *Peer) SendRecord(typ byte, frag []byte) error {
+	p.lastSent = p.record(typ, frag)
+	return p.L.Send(p.lastSent)
+}
+
+// ReplayLast sends the previous record again, byte for byte (same epoch and sequence number).
+func (p *Peer) ReplayLast() error {
+	if p.lastSent == nil {
+		return nil
+	}
+	return p.L.Send(p.lastSent)
+}
 
 // SendRecords sends several records in one write / datagram.
 func (p *Peer) SendRecords(recs ...[]byte) error {
@@ -274,6 +287,17 @@ func (p *Peer) digestHS() {
 		}
 		raw := append([]byte{}, p.hsbuf[:hl+n]...)
 		p.hsbuf = p.hsbuf[hl+n:]
+		if p.DTLS && raw[0] != HSClientHello {
+			if p.seenSeq == nil {
+				p.seenSeq = map[uint16]bool{}
+			}
+			ms := uint16(raw[4])<<8 | uint16(raw[5])
+			if p.seenSeq[ms] {
+				p.logKind("retransmitted")
+				continue
+			}
+			p.seenSeq[ms] = true
+		}
 		p.handleHS(raw[0], raw[hl:], raw)
 	}
 }
